@@ -69,10 +69,12 @@ def run_worker(ob, debug=False):
     return res
 
 
-def run_replay(target, args_repr, param, trace=False):
+def run_replay(target, args_repr, param, trace=False, ignore_known=False):
     mod, fn = target.split(":")
     env = dict(os.environ)
     env["VERIF_PARAM"] = json.dumps(param)
+    if ignore_known:
+        env["VERIF_IGNORE_KNOWN"] = "1"     # witness / counterexample replays never see the known-finding exclusions
     env.setdefault("HTML5LIB_VERIF", "1")
     cmd = [PY, os.path.join(ROOT, "engine", "replay.py"), mod, fn, args_repr]
     if trace:
@@ -96,7 +98,7 @@ def write_replay_file(pid, ob, args_repr, detail, target):
         f.write("#!%s\n" % PY)
         f.write('"""Replay of a solver counterexample for property %s, obligation %s.\n\n%s\n\nRuns the case concretely (no CrossHair) against /repo; exit 1 = property violated."""\n' % (pid, ob.id, detail.replace('"""', "'''")[:1500]))
         f.write("import sys, os\nsys.path.insert(0, %r)\nos.environ['VERIF_PARAM'] = %r\n" % (ROOT, json.dumps(ob.param)))
-        f.write("os.environ.setdefault('HTML5LIB_VERIF', '1')\n")
+        f.write("os.environ.setdefault('HTML5LIB_VERIF', '1')\nos.environ['VERIF_IGNORE_KNOWN'] = '1'\n")
         f.write("from %s import %s as case\n" % (mod, fn))
         f.write("args = %s\n" % args_repr)
         f.write("ok = case(**args)\nprint('HOLDS' if ok else 'FAILS: property %s violated for', args)\nsys.exit(0 if ok else 1)\n" % pid)
@@ -151,7 +153,7 @@ def main():
         if f["status"] != "known":
             continue
         w = f["witness"]
-        verdict, _, log = run_replay(w["replay"], repr(w["args"]), w.get("param", {}))
+        verdict, _, log = run_replay(w["replay"], repr(w["args"]), w.get("param", {}), ignore_known=True)
         f["_reproduces"] = verdict.startswith("FAILS")
         if f["_reproduces"]:
             line = "KNOWN-FINDING: property=%s %s [%s]" % (pid, f["text"], f["id"])
@@ -180,7 +182,7 @@ def main():
                 rec["detail"] = "counterexample without reproducible arguments: " + rec["detail"]
                 return ob, rec
             rec["counterexample"] = m["args"]
-            verdict, _, log = run_replay(target, m["args"], ob.param)
+            verdict, _, log = run_replay(target, m["args"], ob.param, ignore_known=True)
             rec["replay_verdict"] = verdict
             if verdict.startswith("FAILS"):
                 matched = None
